@@ -28,122 +28,32 @@ Proof.
   induction m as [|[n i] m IH]; cbn [map zip_nmap fst snd]; [reflexivity|]. now rewrite IH.
 Qed.
 
-Lemma char_decode_pos {A} n (x : A) : n <> 0%nat -> char_decode n x = Ok x.
-Proof. intros H. unfold char_decode. now apply Nat.eqb_neq in H as ->. Qed.
-
-Lemma decode1_nonnil l : l <> [] -> decode1 l = Ok l.
-Proof. intros H. apply char_decode_pos. destruct l; [now elim H|discriminate]. Qed.
-
-Lemma decode1_nil : decode1 [] = Err 8.
-Proof. reflexivity. Qed.
-
-(* size of the treatment_names dataset *)
-Lemma tnames_size arity rows :
-  rows_arity arity rows = true ->
-  length (concat (map (fun r => map fst (r_treats r)) rows)) = (length rows * arity)%nat.
+(* load . save is the constructor call load_h5 makes, for ANY screen record *)
+Lemma load_save_is_ctor s :
+  load (save s)
+  = mk_screen (s_rows s) (s_arity s) (s_ctrl s) (Some (s_tmap s, true)) (Some (s_smap s, true)) true true.
 Proof.
-  unfold rows_arity. induction rows as [|r rows IH]; cbn [map concat forallb length]; [reflexivity|].
-  intros H. apply andb_prop in H as [H1 H2]. apply Nat.eqb_eq in H1.
-  rewrite app_length, map_length, (IH H2). cbn [Nat.mul]. f_equal. exact H1.
-Qed.
-
-Lemma arity_of_save arity rows :
-  rows_arity arity rows = true -> rows <> [] ->
-  arity_of (map (fun r => map fst (r_treats r)) rows) = arity.
-Proof.
-  unfold rows_arity. destruct rows as [|r rows]; [intros _ H; now elim H|].
-  cbn [map forallb arity_of]. intros H _. apply andb_prop in H as [H1 _]. apply Nat.eqb_eq in H1.
-  now rewrite map_length.
-Qed.
-
-(* a screen can be loaded back iff its string datasets are non-empty *)
-Definition loadable (s : screen) : bool :=
-  negb (Nat.eqb (length (s_rows s)) 0) && negb (Nat.eqb (s_arity s) 0).
-
-(* load . save, for a screen that satisfies what every constructed screen satisfies *)
-Lemma load_save_core s :
-  rows_arity (s_arity s) (s_rows s) = true ->
-  (s_rows s <> [] -> s_arity s <> 0%nat -> s_tmap s <> []) ->
-  (s_rows s <> [] -> s_smap s <> []) ->
-  mk_screen (s_rows s) (s_arity s) (s_ctrl s) (Some (s_tmap s, true)) (Some (s_smap s, true)) true true = Ok s ->
-  load (save s) = if loadable s then Ok s else Err 8.
-Proof.
-  intros Hra Htm Hsm Hmk. unfold load, loadable, save.
-  cbn [f_tnames f_tdoses f_tm_names f_tm_doses f_tm_ids f_obs f_mask f_snames f_sm_names f_sm_ids f_pnames f_ctrl].
-  unfold decode2. rewrite (tnames_size _ _ Hra).
-  destruct (s_rows s) as [|r rows] eqn:Hrows.
-  { reflexivity. }
-  destruct (s_arity s) as [|a] eqn:Har.
-  { cbn [length Nat.eqb negb andb]. unfold char_decode. now rewrite Nat.mul_0_r. }
-  cbn [length Nat.eqb negb andb].
-  rewrite char_decode_pos by (cbn [length Nat.mul Nat.add]; lia). cbn [res_bind].
-  rewrite decode1_nonnil by discriminate. cbn [res_bind].
-  rewrite decode1_nonnil by discriminate. cbn [res_bind].
-  assert (Hsm' : s_smap s <> []) by (apply Hsm; discriminate).
-  assert (Htm' : s_tmap s <> []) by (apply Htm; discriminate).
-  rewrite decode1_nonnil by (destruct (s_smap s); [now elim Hsm'|discriminate]). cbn [res_bind].
-  rewrite decode1_nonnil by (destruct (s_tmap s); [now elim Htm'|discriminate]). cbn [res_bind].
-  rewrite zip_rows_save, zip_tmap_save, zip_nmap_save.
-  rewrite (arity_of_save (S a) (r :: rows) Hra) by discriminate.
-  exact Hmk.
-Qed.
-
-Lemma load_save_char rows arity ctrl tmap smap og mg s :
-  mk_screen rows arity ctrl tmap smap og mg = Ok s ->
-  load (save s) = if loadable s then Ok s else Err 8.
-Proof.
-  intros H. destruct (mk_screen_idem _ _ _ _ _ _ _ _ H) as (H1 & H2 & H3 & H4 & _ & _ & H7 & H8 & H9).
-  apply load_save_core; [exact H4| | |exact H9].
-  - intros Hr Ha. apply H7; [|now rewrite <- H2]. intros ->. apply Hr. rewrite H1. now apply norm_rows_nil.
-  - intros Hr. apply H8. intros ->. apply Hr. rewrite H1. now apply norm_rows_nil.
-Qed.
-
-Lemma loadable_of_args rows arity ctrl tmap smap og mg s :
-  mk_screen rows arity ctrl tmap smap og mg = Ok s ->
-  loadable s = negb (Nat.eqb (length rows) 0) && negb (Nat.eqb arity 0).
-Proof.
-  intros H. destruct (mk_screen_idem _ _ _ _ _ _ _ _ H) as (H1 & H2 & _).
-  unfold loadable. rewrite H1, H2. f_equal. f_equal.
-  unfold norm_rows. destruct og; [destruct mg|]; now rewrite ?map_length.
-Qed.
-
-Lemma load_save_char_args rows arity ctrl tmap smap og mg s :
-  mk_screen rows arity ctrl tmap smap og mg = Ok s ->
-  load (save s) = if negb (Nat.eqb (length rows) 0) && negb (Nat.eqb arity 0) then Ok s else Err 8.
-Proof.
-  intros H. rewrite (load_save_char _ _ _ _ _ _ _ _ H). now rewrite (loadable_of_args _ _ _ _ _ _ _ _ H).
+  unfold load, save.
+  cbn [f_arity f_tnames f_tdoses f_tm_names f_tm_doses f_tm_ids f_obs f_mask f_snames f_sm_names f_sm_ids f_pnames f_ctrl].
+  now rewrite zip_rows_save, zip_tmap_save, zip_nmap_save.
 Qed.
 
 Lemma load_save rows arity ctrl tmap smap og mg s :
   mk_screen rows arity ctrl tmap smap og mg = Ok s ->
-  rows <> [] -> arity <> 0%nat ->
   load (save s) = Ok s.
 Proof.
-  intros H Hr Ha. rewrite (load_save_char _ _ _ _ _ _ _ _ H), (loadable_of_args _ _ _ _ _ _ _ _ H).
-  destruct rows; [now elim Hr|]. destruct arity; [now elim Ha|]. reflexivity.
+  intros H. rewrite load_save_is_ctor.
+  now destruct (mk_screen_idem _ _ _ _ _ _ _ _ H) as (_ & _ & _ & _ & _ & _ & _ & _ & H9).
 Qed.
 
-Lemma load_save_empty rows arity ctrl tmap smap og mg s :
-  mk_screen rows arity ctrl tmap smap og mg = Ok s ->
-  rows = [] \/ arity = 0%nat ->
-  load (save s) = Err 8.
-Proof.
-  intros H Hr. rewrite (load_save_char _ _ _ _ _ _ _ _ H), (loadable_of_args _ _ _ _ _ _ _ _ H).
-  destruct Hr as [-> | ->]; [reflexivity|]. now rewrite andb_comm.
-Qed.
-
-(* whenever the load succeeds, what comes back is the saved screen itself *)
+(* what comes back is the saved screen itself *)
 Lemma load_save_inv rows arity ctrl tmap smap og mg s s' :
   mk_screen rows arity ctrl tmap smap og mg = Ok s ->
   load (save s) = Ok s' -> s' = s.
-Proof.
-  intros H HL. rewrite (load_save_char _ _ _ _ _ _ _ _ H) in HL.
-  destruct (loadable s); [now injection HL|discriminate].
-Qed.
+Proof. intros H HL. rewrite (load_save _ _ _ _ _ _ _ _ H) in HL. now injection HL. Qed.
 
 Lemma load_save_observables rows arity ctrl tmap smap og mg s :
   mk_screen rows arity ctrl tmap smap og mg = Ok s ->
-  rows <> [] -> arity <> 0%nat ->
   exists s', load (save s) = Ok s'
     /\ length (s_rows s') = length (s_rows s)
     /\ map r_sample (s_rows s') = map r_sample (s_rows s)
@@ -156,18 +66,18 @@ Lemma load_save_observables rows arity ctrl tmap smap og mg s :
     /\ s_tids s' = s_tids s /\ s_sids s' = s_sids s /\ s_pids s' = s_pids s
     /\ s_tmap s' = s_tmap s /\ s_smap s' = s_smap s /\ s_pmap s' = s_pmap s.
 Proof.
-  intros H Hr Ha. exists s. split; [eapply load_save; eassumption|]. repeat split.
+  intros H. exists s. split; [eapply load_save; eassumption|]. repeat split.
 Qed.
 
-Lemma no_renumber rows arity ctrl tmap smap og mg s s' :
+Lemma no_renumber rows arity ctrl tmap smap og mg s :
   mk_screen rows arity ctrl tmap smap og mg = Ok s ->
-  load (save s) = Ok s' ->
-  s_tids s' = s_tids s /\ s_sids s' = s_sids s /\ s_pids s' = s_pids s
+  exists s', load (save s) = Ok s'
+  /\ s_tids s' = s_tids s /\ s_sids s' = s_sids s /\ s_pids s' = s_pids s
   /\ s_tmap s' = s_tmap s /\ s_smap s' = s_smap s /\ s_pmap s' = s_pmap s
   /\ (forall m b, tmap = Some (m, b) -> s_tmap s' = m)
   /\ (forall m b, smap = Some (m, b) -> s_smap s' = m).
 Proof.
-  intros H HL. rewrite (load_save_inv _ _ _ _ _ _ _ _ _ H HL).
+  intros H. exists s. split; [eapply load_save; eassumption|].
   destruct (mk_screen_idem _ _ _ _ _ _ _ _ H) as (_ & _ & _ & _ & H5 & H6 & _).
   repeat split.
   - intros m b ->. exact H5.
@@ -177,71 +87,47 @@ Qed.
 Lemma cycles_fixed s : load (save s) = Ok s -> forall n, cycles n s = Ok s.
 Proof. intros H n. induction n as [|n IH]; cbn [cycles]; [reflexivity|]. rewrite H. cbn [res_bind]. exact IH. Qed.
 
-Lemma fixed_point rows arity ctrl tmap smap og mg s s' :
+Lemma fixed_point rows arity ctrl tmap smap og mg s :
   mk_screen rows arity ctrl tmap smap og mg = Ok s ->
-  load (save s) = Ok s' ->
-  save s' = save s /\ load (save s') = Ok s' /\ forall n, cycles n s' = Ok s'.
+  exists s', load (save s) = Ok s'
+  /\ save s' = save s /\ load (save s') = Ok s' /\ forall n, cycles n s' = Ok s'.
 Proof.
-  intros H HL. pose proof (load_save_inv _ _ _ _ _ _ _ _ _ H HL) as ->.
-  split; [reflexivity|]. split; [exact HL|]. now apply cycles_fixed.
+  intros H. pose proof (load_save _ _ _ _ _ _ _ _ H) as HL. exists s.
+  split; [exact HL|]. split; [reflexivity|]. split; [exact HL|]. now apply cycles_fixed.
 Qed.
 
 Lemma any_cycles rows arity ctrl tmap smap og mg s :
   mk_screen rows arity ctrl tmap smap og mg = Ok s ->
-  rows <> [] -> arity <> 0%nat ->
   forall n, cycles n s = Ok s.
-Proof. intros H Hr Ha. apply cycles_fixed. eapply load_save; eassumption. Qed.
+Proof. intros H. apply cycles_fixed. eapply load_save; eassumption. Qed.
 
 (* ---- experiment space ---- *)
-Definition space_loadable (sp : space) : bool :=
-  negb (Nat.eqb (length (sp_tmap sp)) 0) && negb (Nat.eqb (length (sp_smap sp)) 0).
-
-Lemma space_load_save_char sp :
-  space_load (space_save sp) = if space_loadable sp then Ok sp else Err 8.
+Lemma space_load_save sp : space_load (space_save sp) = Ok sp.
 Proof.
-  unfold space_load, space_save, space_loadable. cbn [g_tnames g_tdoses g_tids g_snames g_sids g_ctrl].
-  destruct sp as [tm sm c]. cbn [sp_tmap sp_smap sp_ctrl].
-  destruct tm as [|e tm]; [reflexivity|].
-  rewrite decode1_nonnil by discriminate. cbn [res_bind].
-  destruct sm as [|e' sm]; [reflexivity|].
-  rewrite decode1_nonnil by discriminate. cbn [res_bind].
-  now rewrite zip_tmap_save, zip_nmap_save.
+  unfold space_load, space_save. cbn [g_tnames g_tdoses g_tids g_snames g_sids g_ctrl].
+  rewrite zip_tmap_save, zip_nmap_save. now destruct sp.
 Qed.
 
-Lemma space_load_save sp :
-  sp_tmap sp <> [] -> sp_smap sp <> [] -> space_load (space_save sp) = Ok sp.
+Lemma space_cycles_fixed sp n : space_cycles n sp = Ok sp.
 Proof.
-  intros Ht Hs. rewrite space_load_save_char. unfold space_loadable.
-  destruct (sp_tmap sp); [now elim Ht|]. destruct (sp_smap sp); [now elim Hs|]. reflexivity.
+  induction n as [|n IH]; cbn [space_cycles]; [reflexivity|]. rewrite space_load_save. cbn [res_bind]. exact IH.
 Qed.
 
-Lemma space_load_save_inv sp sp' : space_load (space_save sp) = Ok sp' -> sp' = sp.
-Proof. rewrite space_load_save_char. destruct (space_loadable sp); [now injection 1|discriminate]. Qed.
-
-Lemma space_cycles_fixed sp : space_load (space_save sp) = Ok sp -> forall n, space_cycles n sp = Ok sp.
+Lemma space_fixed_point sp :
+  exists sp', space_load (space_save sp) = Ok sp'
+  /\ sp' = sp /\ space_save sp' = space_save sp /\ forall n, space_cycles n sp' = Ok sp'.
 Proof.
-  intros H n. induction n as [|n IH]; cbn [space_cycles]; [reflexivity|]. rewrite H. cbn [res_bind]. exact IH.
+  exists sp. split; [apply space_load_save|]. split; [reflexivity|]. split; [reflexivity|].
+  intros n. apply space_cycles_fixed.
 Qed.
 
-Lemma space_fixed_point sp sp' :
-  space_load (space_save sp) = Ok sp' ->
-  sp' = sp /\ space_save sp' = space_save sp /\ forall n, space_cycles n sp' = Ok sp'.
-Proof.
-  intros HL. pose proof (space_load_save_inv _ _ HL) as ->. split; [reflexivity|]. split; [reflexivity|].
-  now apply space_cycles_fixed.
-Qed.
-
-(* the space of a loadable constructed screen is loadable, and from_screen commutes with the round trips *)
+(* from_screen commutes with the screen's own round trip *)
 Lemma space_of_screen_load_save rows arity ctrl tmap smap og mg s :
   mk_screen rows arity ctrl tmap smap og mg = Ok s ->
-  rows <> [] -> arity <> 0%nat ->
   space_load (space_save (space_of_screen s)) = Ok (space_of_screen s)
   /\ (forall n, space_cycles n (space_of_screen s) = Ok (space_of_screen s))
   /\ (forall s', load (save s) = Ok s' -> space_of_screen s' = space_of_screen s).
 Proof.
-  intros H Hr Ha. destruct (mk_screen_idem _ _ _ _ _ _ _ _ H) as (_ & _ & _ & _ & _ & _ & H7 & H8 & _).
-  assert (HL : space_load (space_save (space_of_screen s)) = Ok (space_of_screen s)).
-  { apply space_load_save; cbn [space_of_screen sp_tmap sp_smap]; auto. }
-  split; [exact HL|]. split; [now apply space_cycles_fixed|].
+  intros H. split; [apply space_load_save|]. split; [intros n; apply space_cycles_fixed|].
   intros s' HL'. now rewrite (load_save_inv _ _ _ _ _ _ _ _ _ H HL').
 Qed.
